@@ -11,6 +11,17 @@
 //!  * `pack`     pack_lwe_ciphertexts for EVERY k = 1..N: value j at index j*N/2^ceil(log2 k), scale 1,
 //!               zeros elsewhere; index j from the j-th ciphertext and every fixed index
 //!
+//! Size-extension sections (same checks and oracles, keys prefixed `big:` / `chain:`): every dimension the code
+//! loops over, blocks or masks is driven across 64 / 128 / 256 / .. / 4096 by STRUCTURED exhaustive families:
+//!  * `big:shift`     negacyclic_shift/_p/_ps at N = 128 .. 8192: every shift x 9 structured vectors (dense, sparse,
+//!                    runs of 64 / 63, ..) and every shift x every unit vector; poly counts 1..4 x component counts 1..18
+//!  * `big:extract`   N = 128 .. 4096, EVERY index, both representations, dense message (+ two monomials)
+//!  * `big:trace`     N = 128 .. 4096, EVERY l, dense message + monomials at the boundary positions
+//!  * `big:pack`      EVERY k = 1..N at N = 128, 256; the boundary counts (63,64,65,..,N/2+-1,N-1,N) up to N = 4096
+//!  * `chain:extract|trace|pack`  2..19 coefficient primes (1..18 at the first level) at N = 8 (16): every index / l / k
+//! (parameter sets: three 60-bit primes, t = 257, CKKS scale 2^50 for N >= 128; 50-bit primes + a 51-bit special prime
+//! for the chains.) Quick tier: N = 128, 256 (shift: up to 1024); thorough: up to 4096 (shift: 8192).
+//!
 //! A-priori noise bound (absolute value of the phase error, B = 21 the sampler's clipping bound):
 //!   fresh      v0  = B(2N+1) + N + 2                       (+ t in BFV: rounding of Delta*m)
 //!   one key switch Eks = k N B 2^max(0, maxbits(q_i) - bits(P) + 1) * 4 + 2(N+1)
@@ -36,12 +47,17 @@ pub fn describe(rep: &Report) {
          trace: case = (parameter set, level, l, pre-scaling, message), one trace, all N coefficients compared. \
          pack: case = (parameter set, level, k, index rule, message family); the unit family loops over every position j0 of \
          the single non-zero LWE. messages: every unit monomial +-X^p and one dense generic polynomial. \
-         non-trivial = the expected result has a non-zero coefficient (or, for units, the zeroing of a non-zero input is checked).",
+         non-trivial = the expected result has a non-zero coefficient (or, for units, the zeroing of a non-zero input is checked). \
+         big:* / chain:* sections: the same case types and checks on structured families at N = 128..4096 (shift ..8192) and with 2..19 \
+         primes at N = 8, 16: big:shift case = (N, moduli, polys, variant, family), family vec = every shift x 9 structured vectors, \
+         family unit = every shift x every unit vector of a range of flat positions; big:extract loops EVERY index on a dense message; \
+         big:trace every l; big:pack every k = 1..N at N <= 256 and the counts around the powers of two beyond.",
     );
     rep.assume("decryption + BatchEncoder/CKKSEncoder::decode_polynomial_new are the observation (coefficient view); they are the subject of other properties");
     rep.assume("a-priori noise bound of the module header decides when a result is judged (never exceeded with 3 primes of 54/54/55 bits; with 30/30/30 bits only the CKKS second level is skipped: scale 2^40 does not fit a 30-bit modulus)");
     rep.assume("t is an odd prime (257 and 17), so N/2^l is invertible modulo t");
-    rep.assume("CKKS results are compared with tolerance V/scale (scale 2^40), V the a-priori bound");
+    rep.assume("CKKS results are compared with tolerance V/scale (scale 2^40; 2^50 in the sections at N >= 128), V the a-priori bound");
+    rep.assume("big:* sections: three 60-bit primes (every level holds t*V resp. scale*17 with >= 3 bits to spare; the skipped cases are CKKS traces at the single-prime level whose expected values (N/2^l * 16 * 2^50) do not fit 60 bits); chain:* sections: 50-bit primes and a 51-bit special prime, CKKS scale 2^40 (same kind of skip at the last level)");
 }
 
 // ------------------------------------------------------------------------------------------------
@@ -122,6 +138,221 @@ fn run_shift(c: &SCase, seed: u64) -> CaseOut {
 }
 
 // ------------------------------------------------------------------------------------------------
+// direct: negacyclic_shift at production sizes (structured families)
+// ------------------------------------------------------------------------------------------------
+
+#[derive(Serialize, Deserialize, Clone, Debug)]
+pub struct BSCase {
+    pub n: usize,
+    /// one modulus per component
+    pub q: Vec<u64>,
+    /// number of polynomials (1 for "single" and "p")
+    pub pcount: usize,
+    /// "single" | "p" | "ps"
+    pub variant: String,
+    /// "vec": every shift x the structured vectors of `big_vectors`;
+    /// "unit": every shift x every unit vector of the flattened pcount x components x N array with its
+    ///         non-zero entry at a flat position in lo..hi, coefficient values: the first `ncoef` of (generic, q-1, 1)
+    pub family: String,
+    pub lo: usize,
+    pub hi: usize,
+    pub ncoef: usize,
+}
+
+const BIG_KINDS: [&str; 9] = ["zero", "dense", "sparse", "ones", "minus-ones", "low-half", "high-half", "blocks64", "blocks63"];
+
+/// one component of the structured vector `kind` (salt separates the components)
+fn big_vector(kind: &str, n: usize, q: u64, seed: u64, salt: usize) -> Vec<u64> {
+    let gen = |i: usize| {
+        let g = h64(&(seed, "big-shift", salt, i, q)) % q;
+        if g == 0 {
+            1 % q
+        } else {
+            g
+        }
+    };
+    (0..n)
+        .map(|i| match kind {
+            "zero" => 0,
+            "dense" => gen(i),
+            "sparse" => {
+                if h64(&(seed, "big-sparse", salt, i)) % 3 == 0 {
+                    0
+                } else {
+                    gen(i)
+                }
+            }
+            "ones" => 1 % q,
+            "minus-ones" => q - 1,
+            "low-half" => {
+                if i < n / 2 {
+                    gen(i)
+                } else {
+                    0
+                }
+            }
+            "high-half" => {
+                if i >= n / 2 {
+                    gen(i)
+                } else {
+                    0
+                }
+            }
+            // runs of 64 (63) non-zero coefficients separated by runs of zeros of the same length
+            "blocks64" => {
+                if (i / 64) % 2 == 0 {
+                    gen(i)
+                } else {
+                    0
+                }
+            }
+            _ => {
+                if (i / 63) % 2 == 1 {
+                    gen(i)
+                } else {
+                    0
+                }
+            }
+        })
+        .collect()
+}
+
+/// X^s * a(X) mod (X^N + 1, q) by definition for reduced coefficients and 0 <= s < 2N (refmodel::poly::pshift without
+/// the divisions, which dominate at N = 4096 x 8192 shifts; agreement of the two is part of every `vec` case)
+fn shift_ref(a: &[u64], s: usize, q: u64, r: &mut [u64]) {
+    let n = a.len();
+    for (i, &x) in a.iter().enumerate() {
+        let mut e = i + s;
+        if e >= 2 * n {
+            e -= 2 * n;
+        }
+        if e < n {
+            r[e] = x;
+        } else {
+            r[e - n] = if x == 0 { 0 } else { q - x };
+        }
+    }
+}
+
+fn run_bshift(c: &BSCase, seed: u64) -> CaseOut {
+    let n = c.n;
+    let k = c.q.len();
+    let well_formed = n >= 1
+        && k >= 1
+        && c.pcount >= 1
+        && match c.variant.as_str() {
+            "single" => k == 1 && c.pcount == 1,
+            "p" => c.pcount == 1,
+            "ps" => true,
+            _ => false,
+        }
+        && c.q.iter().all(|&q| q >= 2)
+        && c.lo <= c.hi
+        && c.hi <= c.pcount * k * n
+        && c.ncoef <= 3;
+    if !well_formed {
+        return CaseOut::skip("outside the enumerated domain");
+    }
+    let key = |what: &str| format!("big:shift:{}:{}:{what}", c.variant, c.family);
+    let mods: Vec<Modulus> = match guard(|| c.q.iter().map(|&q| Modulus::new(q)).collect()) {
+        Ok(m) => m,
+        Err(p) => return CaseOut::fail(key(&format!("modulus_new:panic:{}", panic_class(&p))), "Modulus::new accepts the value", p),
+    };
+    let total = c.pcount * k * n;
+    let shape = format!("N={n} polys={} moduli={:?}", c.pcount, c.q);
+    let call = |input: &[u64], s: usize, out: &mut [u64]| {
+        guard(|| match c.variant.as_str() {
+            "single" => psm::negacyclic_shift(input, s, &mods[0], out),
+            "p" => psm::negacyclic_shift_p(input, s, n, &mods, out),
+            _ => psm::negacyclic_shift_ps(input, s, c.pcount, n, &mods, out),
+        })
+    };
+    const SENTINEL: u64 = 0xDEAD_BEEF_DEAD_BEEF;
+    let mut out = vec![SENTINEL; total];
+    let mut expect = vec![0u64; n];
+    let mut steps = 0u64;
+    match c.family.as_str() {
+        "vec" => {
+            for kind in BIG_KINDS {
+                let comps: Vec<Vec<u64>> = (0..c.pcount * k).map(|pc| big_vector(kind, n, c.q[pc % k], seed, pc)).collect();
+                let input: Vec<u64> = comps.iter().flatten().copied().collect();
+                // the lean reference against the refmodel one on the boundary shifts
+                for s in [0, 1, 63, 64, 65, n - 1, n, n + 1, n + 64, 2 * n - 1] {
+                    shift_ref(&comps[0], s, c.q[0], &mut expect);
+                    if expect != pshift(&comps[0], s, c.q[0]) {
+                        return CaseOut::undecided("the two reference shifts disagree");
+                    }
+                }
+                for s in 0..2 * n {
+                    out.fill(SENTINEL);
+                    let r = call(&input, s, &mut out);
+                    steps += 1;
+                    if let Err(p) = r {
+                        return CaseOut::fail(key(&format!("panic:{}", panic_class(&p))), format!("no panic: {shape} shift={s} vector '{kind}'"), p);
+                    }
+                    for (pc, comp) in comps.iter().enumerate() {
+                        shift_ref(comp, s, c.q[pc % k], &mut expect);
+                        let got = &out[pc * n..(pc + 1) * n];
+                        if got != &expect[..] {
+                            let i = (0..n).find(|&i| got[i] != expect[i]).unwrap();
+                            let src = (i + 2 * n - s) % n;
+                            return CaseOut::fail(
+                                key("wrong"),
+                                format!("{shape} shift={s} vector '{kind}', component {pc}: coefficient {i} = {} (from input coefficient {src} = {})", expect[i], comp[src]),
+                                format!("{}", got[i]),
+                            );
+                        }
+                    }
+                }
+            }
+        }
+        "unit" => {
+            let mut input = vec![0u64; total];
+            for g in c.lo..c.hi {
+                let q = c.q[(g / n) % k];
+                let (base, i) = (g - g % n, g % n);
+                let generic = {
+                    let x = h64(&(seed, "big-unit", g, q)) % q;
+                    if x == 0 {
+                        1 % q
+                    } else {
+                        x
+                    }
+                };
+                for &v in [generic, q - 1, 1 % q].iter().take(c.ncoef) {
+                    input[g] = v;
+                    for s in 0..2 * n {
+                        out.fill(SENTINEL);
+                        let r = call(&input, s, &mut out);
+                        steps += 1;
+                        if let Err(p) = r {
+                            return CaseOut::fail(key(&format!("panic:{}", panic_class(&p))), format!("no panic: {shape} shift={s} unit vector {v} at flat position {g}"), p);
+                        }
+                        // X^s * v X^i = +-v X^((i+s) mod N), negative iff (i+s) mod 2N >= N
+                        let e = (i + s) % (2 * n);
+                        let (pos, val) = if e < n { (e, v) } else { (e - n, (q - v) % q) };
+                        let got = out[base + pos];
+                        out[base + pos] = 0;
+                        if got != val || out.iter().any(|&x| x != 0) {
+                            out[base + pos] = got;
+                            let bad: Vec<(usize, u64)> = out.iter().copied().enumerate().filter(|&(j, x)| x != if j == base + pos { val } else { 0 }).take(4).collect();
+                            return CaseOut::fail(
+                                key("wrong"),
+                                format!("{shape} shift={s} unit vector {v} at flat position {g} (modulus {q}): {val} at flat position {}, zeros elsewhere", base + pos),
+                                format!("first differing (flat position, value): {bad:?}"),
+                            );
+                        }
+                    }
+                }
+                input[g] = 0;
+            }
+        }
+        _ => return CaseOut::skip("outside the enumerated domain"),
+    }
+    CaseOut::pass(true, h64(&(c.variant.as_str(), c.family.as_str(), n, k, c.pcount)), steps)
+}
+
+// ------------------------------------------------------------------------------------------------
 // scheme-level helpers
 // ------------------------------------------------------------------------------------------------
 
@@ -142,6 +373,16 @@ pub enum Repr {
 }
 
 const CKKS_SCALE: f64 = (1u64 << 40) as f64;
+/// From N = 128 on the a-priori bound of a full pack (N 2^l Eks, up to 2^45 at N = 4096) would make the tolerance
+/// V / 2^40 useless, so the large-degree sections encode at 2^50 (their primes have 60 bits, so that a single-prime
+/// level still holds scale * 17). A function of the parameter set alone: cases stay self-contained.
+fn ckks_scale(spec: &ParamSpec) -> f64 {
+    if spec.n >= 128 {
+        (1u64 << 50) as f64
+    } else {
+        CKKS_SCALE
+    }
+}
 const B_ERR: f64 = 21.0;
 
 struct Sys {
@@ -153,6 +394,8 @@ struct Sys {
     qbits: f64,
     eks: f64,
     v0: f64,
+    /// CKKS scale of this parameter set (see `ckks_scale`)
+    scale: f64,
 }
 
 enum Dec {
@@ -195,7 +438,8 @@ impl Sys {
         if spec.scheme == Scheme::BFV {
             v0 += spec.t as f64;
         }
-        Ok(Sys { kit, level, bat, ck, keys, qbits, eks, v0 })
+        let scale = ckks_scale(spec);
+        Ok(Sys { kit, level, bat, ck, keys, qbits, eks, v0, scale })
     }
     fn n(&self) -> usize {
         self.kit.spec.n
@@ -219,12 +463,12 @@ impl Sys {
         let need = match self.scheme() {
             Scheme::BFV => v.log2() + t.log2() + 1.0,
             Scheme::BGV => (t * v + t).log2() + 1.0,
-            Scheme::CKKS => (v + CKKS_SCALE * (maxabs + 1.0)).log2() + 1.0,
+            Scheme::CKKS => (v + self.scale * (maxabs + 1.0)).log2() + 1.0,
         };
         if need + 3.0 >= self.qbits {
             return None;
         }
-        let tol = if self.scheme() == Scheme::CKKS { v / CKKS_SCALE + 1e-9 } else { 0.0 };
+        let tol = if self.scheme() == Scheme::CKKS { v / self.scale + 1e-9 } else { 0.0 };
         if tol >= 0.2 {
             return None;
         }
@@ -268,7 +512,7 @@ impl Sys {
             let pt = match self.scheme() {
                 Scheme::CKKS => {
                     let v: Vec<f64> = m.iter().map(|&x| x as f64).collect();
-                    self.ck.as_ref().unwrap().encode_f64_polynomial_new(&v, None, CKKS_SCALE)
+                    self.ck.as_ref().unwrap().encode_f64_polynomial_new(&v, None, self.scale)
                 }
                 _ => {
                     let t = self.t() as i64;
@@ -328,17 +572,49 @@ impl Sys {
     }
     fn show(&self, d: &Dec) -> String {
         match d {
-            Dec::Int(v) => format!("{v:?}"),
-            Dec::Real(v) => format!("{:?}", v.iter().map(|x| (x * 1e4).round() / 1e4).collect::<Vec<_>>()),
+            Dec::Int(v) => clip(v),
+            Dec::Real(v) => clip(&v.iter().map(|x| (x * 1e4).round() / 1e4).collect::<Vec<_>>()),
         }
     }
     fn show_exp(&self, exp: &[i64]) -> String {
         if self.scheme() == Scheme::CKKS {
-            format!("{exp:?}")
+            clip(exp)
         } else {
             let t = self.t() as i64;
-            format!("{:?}", exp.iter().map(|x| x.rem_euclid(t)).collect::<Vec<_>>())
+            clip(&exp.iter().map(|x| x.rem_euclid(t)).collect::<Vec<_>>())
         }
+    }
+}
+
+thread_local! {
+    /// last system built on this thread by a size-extension section: (hash of the arguments, system)
+    static SYS_CACHE: std::cell::RefCell<Option<(u64, std::rc::Rc<Sys>)>> = const { std::cell::RefCell::new(None) };
+}
+
+/// `Sys::new` is a pure function of its arguments (it installs its own entropy / noise script and every caller
+/// re-seeds afterwards), so the size-extension sections, whose consecutive cases share a parameter set whose context
+/// and keys cost far more than one case, keep the last one per thread. The original sections build it per case.
+fn get_sys(pfx: &str, spec: &ParamSpec, level: usize, noise: Noise, seed: u64, with_keys: bool) -> Result<std::rc::Rc<Sys>, String> {
+    if pfx.is_empty() {
+        return Sys::new(spec, level, noise, seed, with_keys).map(std::rc::Rc::new);
+    }
+    let tag = h64(&(spec, level, noise, seed, with_keys));
+    if let Some(s) = SYS_CACHE.with(|c| c.borrow().as_ref().filter(|(t, _)| *t == tag).map(|(_, s)| s.clone())) {
+        return Ok(s);
+    }
+    // drop the old one first (a system at N = 4096 holds some MB of keys)
+    SYS_CACHE.with(|c| *c.borrow_mut() = None);
+    let s = std::rc::Rc::new(Sys::new(spec, level, noise, seed, with_keys)?);
+    SYS_CACHE.with(|c| *c.borrow_mut() = Some((tag, s.clone())));
+    Ok(s)
+}
+
+/// vectors of the large-degree sections are reported by their first 32 entries (the case replays the rest)
+fn clip<T: std::fmt::Debug>(v: &[T]) -> String {
+    if v.len() <= 64 {
+        format!("{v:?}")
+    } else {
+        format!("{:?}.. ({} entries)", &v[..32], v.len())
     }
 }
 
@@ -370,12 +646,17 @@ fn lwe_shape_ok(l: &LWECiphertext, ct: &Ciphertext) -> bool {
 }
 
 fn run_extract(c: &XCase, seed: u64) -> CaseOut {
-    let sys = match Sys::new(&c.spec, c.level, c.noise, seed, false) {
+    run_extract_p("", c, seed)
+}
+
+/// `pfx` = "" for the section `extract`, "big:" / "chain:" for the size-extension sections (same check, own keys)
+fn run_extract_p(pfx: &str, c: &XCase, seed: u64) -> CaseOut {
+    let sys = match get_sys(pfx, &c.spec, c.level, c.noise, seed, false) {
         Ok(s) => s,
         Err(e) => return CaseOut::skip(&format!("parameter set not usable: {}", panic_class(&e))),
     };
     let sc = format!("{:?}", c.spec.scheme);
-    let key = |what: &str| format!("extract:{sc}:{:?}:{what}", c.repr);
+    let key = |what: &str| format!("{pfx}extract:{sc}:{:?}:{what}", c.repr);
     env(seed, h64(&("c19-extract", serde_json::to_string(c).unwrap())), c.noise.mode(), c.noise.mode());
     let m = sys.message(&c.msg, seed, 0);
     let Some(tol) = sys.judged(sys.v0, 16.0) else { return CaseOut::skip("a-priori noise bound exceeds the head-room") };
@@ -459,7 +740,11 @@ pub struct TCase {
 }
 
 fn run_trace(c: &TCase, seed: u64) -> CaseOut {
-    let sys = match Sys::new(&c.spec, c.level, c.noise, seed, true) {
+    run_trace_p("", c, seed)
+}
+
+fn run_trace_p(pfx: &str, c: &TCase, seed: u64) -> CaseOut {
+    let sys = match get_sys(pfx, &c.spec, c.level, c.noise, seed, true) {
         Ok(s) => s,
         Err(e) => return CaseOut::skip(&format!("parameter set not usable: {}", panic_class(&e))),
     };
@@ -469,7 +754,7 @@ fn run_trace(c: &TCase, seed: u64) -> CaseOut {
         Pre::DivN => "divN",
         Pre::DivMul(_) => "divNmul",
     };
-    let key = |what: &str| format!("trace:{sc}:{pre}:{what}");
+    let key = |what: &str| format!("{pfx}trace:{sc}:{pre}:{what}");
     let n = sys.n();
     let logn = log2_exact(n);
     if c.l > logn || (c.pre == Pre::DivN && c.l != 0) {
@@ -558,7 +843,11 @@ pub struct PCase {
 }
 
 fn run_pack(c: &PCase, seed: u64) -> CaseOut {
-    let sys = match Sys::new(&c.spec, c.level, c.noise, seed, true) {
+    run_pack_p("", c, seed)
+}
+
+fn run_pack_p(pfx: &str, c: &PCase, seed: u64) -> CaseOut {
+    let sys = match get_sys(pfx, &c.spec, c.level, c.noise, seed, true) {
         Ok(s) => s,
         Err(e) => return CaseOut::skip(&format!("parameter set not usable: {}", panic_class(&e))),
     };
@@ -579,7 +868,7 @@ fn run_pack(c: &PCase, seed: u64) -> CaseOut {
         Idx::Diag => "diag",
         Idx::Fixed(_) => "fixed",
     };
-    let key = |what: &str| format!("pack:{sc}:{idxs}:{kclass}:{what}");
+    let key = |what: &str| format!("{pfx}pack:{sc}:{idxs}:{kclass}:{what}");
     let mut l = 0usize;
     while (1usize << l) < k {
         l += 1;
@@ -830,5 +1119,350 @@ pub fn sections(cfg: &RunCfg) -> Vec<Box<dyn AnySection>> {
         )
         .deadline(Duration::from_secs(60)),
     );
+    size_sections(cfg, &mut out);
     out
+}
+
+// ------------------------------------------------------------------------------------------------
+// enumeration of the size-extension sections (N >= 128; 2..19 primes)
+// ------------------------------------------------------------------------------------------------
+
+/// the boundary values of a dimension that is blocked / tiled / masked by 64 .. 4096, restricted to lo..=hi
+fn edges(lo: usize, hi: usize) -> Vec<usize> {
+    let mut v = vec![lo, hi.saturating_sub(1), hi, hi / 2, (hi / 2).saturating_sub(1), hi / 2 + 1];
+    for b in [1usize, 2, 8, 16, 32, 64, 128, 256, 512, 1024, 2048, 4096] {
+        v.extend([b.saturating_sub(1), b, b + 1]);
+    }
+    v.retain(|&x| x >= lo && x <= hi);
+    v.sort();
+    v.dedup();
+    v
+}
+
+/// {BFV, BGV, CKKS} with three 60-bit primes (the last one is the special prime), t = 257
+fn big_specs(n: usize) -> Vec<ParamSpec> {
+    let q = chain(n, &[60, 60, 60]);
+    Scheme::all().into_iter().map(|s| ParamSpec::new(s, n, q.clone(), 257)).collect()
+}
+
+/// {BFV, BGV, CKKS} at degree n with `total` primes: total-1 of 50 bits and a 51-bit special prime, t = 257;
+/// with the data levels to visit (first, second, last)
+fn chain_specs(n: usize, totals: &[usize]) -> Vec<(ParamSpec, Vec<usize>)> {
+    let mut v = vec![];
+    for &total in totals {
+        let mut bits = vec![50usize; total - 1];
+        bits.push(51);
+        let q = chain(n, &bits);
+        let mut levels = vec![0usize, 1, total - 2];
+        levels.retain(|&l| l + 2 <= total);
+        levels.sort();
+        levels.dedup();
+        for s in Scheme::all() {
+            v.push((ParamSpec::new(s, n, q.clone(), 257), levels.clone()));
+        }
+    }
+    v
+}
+
+fn size_sections(cfg: &RunCfg, out: &mut Vec<Box<dyn AnySection>>) {
+    let seed = cfg.seed;
+    let thorough = cfg.thorough();
+    // large degree AND many primes at once: 10 primes in all (9 at the first level) at N = 256 (thorough +1024, 4096)
+    let cross_ns: &[usize] = if thorough { &[256, 1024, 4096] } else { &[256] };
+    let cross: Vec<(ParamSpec, Vec<usize>)> = cross_ns.iter().flat_map(|&n| chain_specs(n, &[10])).collect();
+
+    // (v) negacyclic_shift at N >= 128
+    {
+        let big = ntt_primes(64, 60, 6);
+        let mid = ntt_primes(64, 30, 6);
+        let m61 = (1u64 << 61) - 1;
+        // 18 component moduli of mixed sizes
+        let pool: Vec<u64> = vec![big[0], 2, mid[0], 3, big[1], 97, m61, mid[1], 257, big[2], 65537, mid[2], big[3], mid[3], big[4], mid[4], big[5], mid[5]];
+        let mut sc: Vec<BSCase> = vec![];
+        let vecs = |sc: &mut Vec<BSCase>, n: usize, q: Vec<u64>, pcount: usize, variant: &str| {
+            sc.push(BSCase { n, q, pcount, variant: variant.into(), family: "vec".into(), lo: 0, hi: 0, ncoef: 0 });
+        };
+        // unit family in chunks of `chunk` flat positions
+        let units = |sc: &mut Vec<BSCase>, n: usize, q: Vec<u64>, pcount: usize, variant: &str, ncoef: usize, chunk: usize| {
+            let total = n * q.len() * pcount;
+            let mut lo = 0;
+            while lo < total {
+                let hi = (lo + chunk).min(total);
+                sc.push(BSCase { n, q: q.clone(), pcount, variant: variant.into(), family: "unit".into(), lo, hi, ncoef });
+                lo = hi;
+            }
+        };
+        let singles = [2u64, 97, big[0], m61];
+        for n in [128usize, 256] {
+            for q in singles {
+                vecs(&mut sc, n, vec![q], 1, "single");
+                units(&mut sc, n, vec![q], 1, "single", 3, 64);
+            }
+            // every poly count 1..4 x every component count 1..18 (at N = 256 in the quick tier: the counts around 2, 8, 16)
+            for pcount in 1..=4usize {
+                for k in 1..=18usize {
+                    if n == 256 && !thorough && !(pcount <= 3 && [1usize, 2, 3, 8, 9, 16, 17, 18].contains(&k)) {
+                        continue;
+                    }
+                    if pcount == 1 {
+                        vecs(&mut sc, n, pool[..k].to_vec(), 1, "p");
+                    }
+                    vecs(&mut sc, n, pool[..k].to_vec(), pcount, "ps");
+                }
+            }
+        }
+        // every unit vector of a 3-component polynomial / of two 2-component polynomials
+        units(&mut sc, 128, pool[..3].to_vec(), 1, "p", 2, 64);
+        units(&mut sc, 128, pool[..2].to_vec(), 2, "ps", 2, 64);
+        vecs(&mut sc, 512, vec![big[0]], 1, "single");
+        units(&mut sc, 512, vec![big[0]], 1, "single", 1, 64);
+        vecs(&mut sc, 1024, vec![big[0]], 1, "single");
+        vecs(&mut sc, 1024, pool[..2].to_vec(), 2, "ps");
+        if thorough {
+            for n in [512usize, 1024, 2048, 4096, 8192] {
+                for q in singles {
+                    if n < 8192 || q == big[0] || q == 97 {
+                        vecs(&mut sc, n, vec![q], 1, "single");
+                    }
+                }
+                let (ps, shapes): (&[usize], &[(usize, usize)]) = match n {
+                    512 | 1024 => (&[2, 9, 18], &[(2, 1), (2, 2), (2, 3), (2, 9), (3, 1), (3, 2), (3, 3), (3, 9)]),
+                    2048 | 4096 => (&[2, 9], &[(2, 2), (3, 3), (2, 9)]),
+                    _ => (&[2], &[(2, 2)]),
+                };
+                for &k in ps {
+                    vecs(&mut sc, n, pool[..k].to_vec(), 1, "p");
+                }
+                for &(pcount, k) in shapes {
+                    vecs(&mut sc, n, pool[..k].to_vec(), pcount, "ps");
+                }
+            }
+            for n in [512usize, 1024] {
+                units(&mut sc, n, vec![97], 1, "single", 3, 64);
+                units(&mut sc, n, vec![big[0]], 1, "single", 3, 64);
+            }
+            units(&mut sc, 512, pool[..2].to_vec(), 2, "ps", 1, 64);
+            units(&mut sc, 2048, vec![big[0]], 1, "single", 3, 32);
+            units(&mut sc, 2048, vec![97], 1, "single", 1, 32);
+            units(&mut sc, 4096, vec![big[0]], 1, "single", 1, 32);
+        }
+        sc.sort_by_key(|c| (c.n * c.q.len() * c.pcount, c.family == "unit", c.lo));
+        out.push(
+            E1::new(
+                "big:shift",
+                "negacyclic_shift/_p/_ps at N = 128, 256: every shift 0..2N-1 x {9 structured vectors (zero, dense, sparse, all 1, all q-1, half-filled, runs of 64 / 63); every unit vector with coefficients generic, q-1, 1} for moduli 2, 97, 60-bit, 2^61-1; every poly count 1..4 x every component count 1..18 (N = 256 quick: polys 1..3, components 1,2,3,8,9,16,17,18) on the structured vectors; every unit vector of the flattened 1x3 / 2x2 arrays at N = 128; N = 512 (vectors + every unit, generic coefficient), N = 1024 (vectors). thorough: + N = 512..8192 vectors (single x 4 moduli (8192: 2); N <= 1024: p x {2,9,18} components, ps {2,3} polys x {1,2,3,9}; N = 2048, 4096: p x {2,9}, ps 2x2, 3x3, 2x9; N = 8192: p x 2, ps 2x2), every unit vector x every shift at N = 512, 1024, 2048 (3 coefficient values) and 4096 (generic coefficient), flattened 2x2 at N = 512",
+                sc.into_iter(),
+                move |c: &BSCase| run_bshift(c, seed),
+            )
+            .batch(2)
+            .deadline(Duration::from_secs(600)),
+        );
+    }
+
+    let big_ns: &[usize] = if thorough { &[128, 256, 512, 1024, 2048, 4096] } else { &[128, 256] };
+    let chain_totals: Vec<usize> = if thorough { (2..=19).collect() } else { vec![2, 3, 4, 5, 6, 7, 8, 9, 10, 11, 16, 17, 18, 19] };
+    let chain_ns: &[usize] = if thorough { &[8, 16] } else { &[8] };
+
+    // (vi) extract / assemble
+    {
+        let mut xc: Vec<XCase> = vec![];
+        for &n in big_ns {
+            for spec in big_specs(n) {
+                for level in [0usize, 1] {
+                    for repr in [Repr::Natural, Repr::Other] {
+                        let mut msgs = vec![Msg::Dense, Msg::Unit { pos: n - 1, neg: true }];
+                        if n <= 512 {
+                            msgs.push(Msg::Unit { pos: 64, neg: false });
+                        }
+                        for msg in msgs {
+                            xc.push(XCase { spec: spec.clone(), level, noise: Noise::Real, repr, msg });
+                        }
+                    }
+                }
+            }
+        }
+        for (spec, levels) in &cross {
+            for &level in levels {
+                for repr in [Repr::Natural, Repr::Other] {
+                    xc.push(XCase { spec: spec.clone(), level, noise: Noise::Real, repr, msg: Msg::Dense });
+                }
+            }
+        }
+        xc.sort_by_key(|c| c.spec.n * c.spec.n * c.spec.q.len());
+        out.push(
+            E1::new(
+                "big:extract",
+                "N in {128,256} (thorough +512,1024,2048,4096) x {BFV,BGV,CKKS} x q = three 60-bit primes, t = 257, CKKS scale 2^50 x level {first, after one mod switch} x both input representations x messages {dense, -X^(N-1), X^64 (N <= 512)} x EVERY extraction index i = 0..N-1; also ten primes (nine 50-bit + a 51-bit special prime) at N = 256 (thorough +1024, 4096) x level {first, second, last} x both representations, dense message, EVERY index",
+                xc.into_iter(),
+                move |c: &XCase| run_extract_p("big:", c, seed),
+            )
+            .batch(1)
+            .deadline(Duration::from_secs(900)),
+        );
+        let mut xc: Vec<XCase> = vec![];
+        for &n in chain_ns {
+            for (spec, levels) in chain_specs(n, &chain_totals) {
+                for &level in &levels {
+                    for repr in [Repr::Natural, Repr::Other] {
+                        for msg in [Msg::Dense, Msg::Unit { pos: n - 1, neg: true }, Msg::Unit { pos: 1, neg: false }] {
+                            xc.push(XCase { spec: spec.clone(), level, noise: Noise::Real, repr, msg });
+                        }
+                    }
+                }
+            }
+        }
+        out.push(
+            E1::new(
+                "chain:extract",
+                "N = 8 (thorough +16) x {BFV,BGV,CKKS} x 2,3,..,11,16,17,18,19 coefficient primes in all (thorough every count 2..19; 50-bit primes + a 51-bit special prime, so 1..18 primes at the first level) x level {first, second, last} x both input representations x messages {dense, -X^(N-1), X} x EVERY extraction index",
+                xc.into_iter(),
+                move |c: &XCase| run_extract_p("chain:", c, seed),
+            )
+            .deadline(Duration::from_secs(120)),
+        );
+    }
+
+    // (vii) field trace
+    {
+        let trace_cases = |spec: &ParamSpec, levels: &[usize], units: &[usize]| -> Vec<TCase> {
+            let n = spec.n;
+            let mut tc = vec![];
+            for &level in levels {
+                for l in 0..=log2_exact(n) {
+                    let mut msgs = vec![Msg::Dense];
+                    for &pos in units {
+                        msgs.push(Msg::Unit { pos, neg: false });
+                        msgs.push(Msg::Unit { pos, neg: true });
+                    }
+                    for msg in msgs {
+                        tc.push(TCase { spec: spec.clone(), level, noise: Noise::Real, l, pre: Pre::None, msg });
+                    }
+                    let mut pres = vec![Pre::DivMul(1), Pre::DivMul(3)];
+                    if l == 0 {
+                        pres.push(Pre::DivN);
+                    }
+                    for pre in pres {
+                        tc.push(TCase { spec: spec.clone(), level, noise: Noise::Real, l, pre, msg: Msg::Dense });
+                        tc.push(TCase { spec: spec.clone(), level, noise: Noise::Real, l, pre, msg: Msg::Unit { pos: n - (n >> l), neg: true } });
+                    }
+                }
+            }
+            tc
+        };
+        let mut tc: Vec<TCase> = vec![];
+        for &n in big_ns {
+            for spec in big_specs(n) {
+                tc.extend(trace_cases(&spec, &[0, 1], &edges(0, n - 1)));
+            }
+        }
+        for (spec, levels) in &cross {
+            tc.extend(trace_cases(spec, levels, &[spec.n - 1]));
+        }
+        tc.sort_by_key(|c| c.spec.n * c.spec.q.len());
+        out.push(
+            E1::new(
+                "big:trace",
+                "N in {128,256} (thorough +512,..,4096), parameter sets of big:extract x level {first, second} x EVERY l = 0..log2 N x messages {dense; +-X^p for p in the boundary set {0,1,2,7,8,9,15,..,N/2-1,N/2,N/2+1,..,N-2,N-1} around the powers of two}; plus divide_by_poly_modulus_degree_inplace(None | c*2^l, c in {1,3}) before the trace; the ten-prime sets x level {first, second, last} x EVERY l x {dense, +-X^(N-1)} + pre-scalings",
+                tc.into_iter(),
+                move |c: &TCase| run_trace_p("big:", c, seed),
+            )
+            .deadline(Duration::from_secs(600)),
+        );
+        let mut tc: Vec<TCase> = vec![];
+        for &n in chain_ns {
+            for (spec, levels) in chain_specs(n, &chain_totals) {
+                tc.extend(trace_cases(&spec, &levels, &[0, 1, n / 2, n - 1]));
+            }
+        }
+        out.push(
+            E1::new(
+                "chain:trace",
+                "parameter sets and levels of chain:extract (2..19 primes at N = 8, thorough +16) x EVERY l x messages {dense; +-X^p, p in {0,1,N/2,N-1}}; plus the pre-scalings of the section trace",
+                tc.into_iter(),
+                move |c: &TCase| run_trace_p("chain:", c, seed),
+            )
+            .deadline(Duration::from_secs(120)),
+        );
+    }
+
+    // (viii) pack
+    {
+        let mut pc: Vec<PCase> = vec![];
+        for &n in big_ns {
+            let ks: Vec<usize> = if n <= 256 { (1..=n).collect() } else { edges(1, n) };
+            let ek = edges(1, n);
+            for spec in big_specs(n) {
+                let p = |level: usize, k: usize, idx: Idx, msg: PMsg| PCase { spec: spec.clone(), level, noise: Noise::Real, k, idx, msg };
+                for &k in &ks {
+                    pc.push(p(0, k, Idx::Diag, PMsg::Dense));
+                }
+                // boundary counts: second level, fixed indices; up to 257 only beyond N = 256 (cost)
+                for &k in ek.iter().filter(|&&k| n <= 256 || k <= 257) {
+                    pc.push(p(1, k, Idx::Diag, PMsg::Dense));
+                    pc.push(p(0, k, Idx::Fixed(n - 1), PMsg::Dense));
+                    pc.push(p(1, k, Idx::Fixed(64), PMsg::Dense));
+                }
+                // one LWE +-1, the others 0, every position
+                if n == 128 {
+                    let uk: &[usize] = if thorough { &[63, 64, 65, 96, 127, 128] } else { &[65] };
+                    for &k in uk {
+                        pc.push(p(0, k, Idx::Diag, PMsg::UnitEach { neg: false }));
+                        if thorough {
+                            pc.push(p(1, k, Idx::Fixed(n - 1), PMsg::UnitEach { neg: true }));
+                        }
+                    }
+                }
+                if n == 256 && thorough {
+                    for k in [65usize, 129, 256] {
+                        pc.push(p(0, k, Idx::Diag, PMsg::UnitEach { neg: true }));
+                    }
+                }
+            }
+        }
+        for (spec, levels) in &cross {
+            let n = spec.n;
+            let ks: Vec<usize> = if n <= 1024 { vec![1, 2, 63, 64, 65, 129, n - 1, n] } else { vec![1, 65, 257] };
+            for &level in levels {
+                for &k in &ks {
+                    if level == 0 || k <= 65 {
+                        pc.push(PCase { spec: spec.clone(), level, noise: Noise::Real, k, idx: Idx::Diag, msg: PMsg::Dense });
+                    }
+                }
+            }
+        }
+        // simplest first; within one size the cases of one parameter set and level stay together (per-thread system cache)
+        pc.sort_by_key(|c| (c.spec.n * c.spec.q.len(), matches!(c.msg, PMsg::UnitEach { .. }), c.spec.scheme as u8, c.level, c.k));
+        out.push(
+            E1::new(
+                "big:pack",
+                "N in {128,256}: parameter sets of big:extract x EVERY k = 1..N (first level, index j from ciphertext j, dense messages); boundary counts k in {1,2,3,7,8,9,15,16,17,31,..,N/2-1,N/2,N/2+1,N-1,N} also at the second level and with fixed index N-1 / 64; unit family (one LWE 1, the others 0, every position) at N = 128, k = 65. thorough: + N in {512,1024,2048,4096} with the boundary counts (second level / fixed index for k <= 257), unit family at N = 128 for k in {63,64,65,96,127,128} and N = 256 for k in {65,129,256}; the ten-prime sets: k in {1,2,63,64,65,129,N-1,N} at N = 256, 1024 (k <= 65 also at the second and last level), k in {1,65,257} at N = 4096",
+                pc.into_iter(),
+                move |c: &PCase| run_pack_p("big:", c, seed),
+            )
+            .batch(1)
+            .deadline(Duration::from_secs(900)),
+        );
+        let mut pc: Vec<PCase> = vec![];
+        for &n in chain_ns {
+            for (spec, levels) in chain_specs(n, &chain_totals) {
+                for &level in &levels {
+                    for k in 1..=n {
+                        let p = |idx: Idx, msg: PMsg| PCase { spec: spec.clone(), level, noise: Noise::Real, k, idx, msg };
+                        pc.push(p(Idx::Diag, PMsg::Dense));
+                        pc.push(p(Idx::Fixed(n - 1), PMsg::Dense));
+                        pc.push(p(Idx::Diag, PMsg::UnitEach { neg: true }));
+                    }
+                }
+            }
+        }
+        out.push(
+            E1::new(
+                "chain:pack",
+                "parameter sets and levels of chain:extract (2..19 primes at N = 8, thorough +16) x EVERY k = 1..N x {index j from ciphertext j, fixed index N-1} with dense messages; unit family (one LWE -1, the others 0, every position) for index j",
+                pc.into_iter(),
+                move |c: &PCase| run_pack_p("chain:", c, seed),
+            )
+            .deadline(Duration::from_secs(120)),
+        );
+    }
 }
